@@ -156,6 +156,10 @@ func perturbACRH(names []string, mode int) []string {
 			return []string{a + " ,", ""}
 		}
 		return []string{a + ",", "," + b}
+	case 6: // empty elements that carry one OWS byte on each side
+		return []string{strings.Join(names, " ,  , ")}
+	case 7: // the same with tabs, plus a whitespace-only element at either end
+		return []string{"\t," + strings.Join(names, "\t,\t\t,\t") + ", "}
 	}
 	return []string{strings.Join(names, ",")}
 }
